@@ -199,6 +199,17 @@ func controlsFor(prop string) []control {
 	sort.Strings(dirs)
 	for _, d := range dirs {
 		if _, err := os.Stat(filepath.Join(d, "patch.diff")); err == nil {
+			// a seed that its meta.json assigns to the check of another property (also_check) or to the thorough
+			// tier of its own (controls are run in the quick tier) is not a control of this check
+			if raw, err := os.ReadFile(filepath.Join(d, "meta.json")); err == nil {
+				var meta struct {
+					Also []string `json:"also_check"`
+					Tier string   `json:"tier"`
+				}
+				if json.Unmarshal(raw, &meta) == nil && (len(meta.Also) > 0 || meta.Tier == "thorough") {
+					continue
+				}
+			}
 			out = append(out, control{Prop: prop, Name: "seeded:" + filepath.Base(d), File: "@patch:" + filepath.Join(d, "patch.diff")})
 		}
 	}
